@@ -159,7 +159,7 @@ def duration_ops(data):
     T["d + e"] = (("d", "e"), lambda d, e: d + e)
     T["d + d (aliased)"] = (("d",), lambda d: d + d)
     T["d - e"] = (("d", "e"), lambda d, e: d - e)
-    T["d * n, n * d"] = (("d", "n"), lambda d, n: (d * n, n * d))
+    T["d * n, n * d"] = (("d", "n"), lambda d, n: (lambda k: (d * k, k * d))(core.realise(n)))
     T["d // 3"] = (("d",), lambda d: d // 3)
     T["abs(d)"] = (("d",), lambda d: abs(d))
     T["d == e, d != e"] = (("d", "e"), lambda d, e: (bool(d == e), bool(d != e)))
